@@ -60,9 +60,11 @@ def create_mcmc(joint, parameters, parameters_unres, arg):
     }
 
     for param in parameters_unres:
-        if param["id"].endswith("theta.log") and arg.coalescent in (
-            "skygrid",
-            "piecewise-constant",
+        if (
+            param["id"].endswith("theta.log")
+            and arg.coalescent in ("skygrid", "piecewise-constant")
+            and not arg.gmrf_integrated
+            and arg.coalescent_temperature is None
         ):
             operator = create_block_updating_operator(
                 param["id"], "gmrf", "coalescent", arg
